@@ -57,7 +57,8 @@ func regAddrs(name string) []protocol.RvTO2Addr {
 	return []protocol.RvTO2Addr{{DNSAddress: &dns, Port: 8000 + uint16(name[0]), TransportProtocol: protocol.HTTPTransport}}
 }
 
-func sqliteRegistrations(depth int) {
+// policyCap > 0: the rendezvous server's AcceptVoucher policy grants at most that many seconds.
+func sqliteRegistrations(depth int, policyCap uint32) {
 	ctx := context.Background()
 	k := keys.KindByName("ec256")
 	w := lab.NewWorld(k, protocol.X509KeyEnc)
@@ -98,7 +99,13 @@ func sqliteRegistrations(depth int) {
 			r.Fatal("sqlite: %v", err)
 		}
 		defer func() { _ = db.Close(); _ = os.Remove(path) }()
-		h := fdohttp.Handler{Tokens: db, TO0Responder: &fdo.TO0Server{Session: db, RVBlobs: db}, TO1Responder: &fdo.TO1Server{Session: db, RVBlobs: db}}
+		to0 := &fdo.TO0Server{Session: db, RVBlobs: db}
+		if policyCap > 0 {
+			to0.AcceptVoucher = func(_ context.Context, _ fdo.Voucher, requested uint32) (uint32, error) {
+				return min(requested, policyCap), nil
+			}
+		}
+		h := fdohttp.Handler{Tokens: db, TO0Responder: to0, TO1Responder: &fdo.TO1Server{Session: db, RVBlobs: db}}
 		wire := &lab.Wire{H: h}
 		now = time.Unix(1_900_000_000, 400_000_000)
 		model := [2]regModel{}
@@ -117,10 +124,14 @@ func sqliteRegistrations(depth int) {
 				r.Violation("sqlite-reg:to0-fails", fmt.Sprintf("history %v: the owner's TO0 fails on the SQLite rendezvous store: %v", hist, err), map[string]any{"layer": "sqlite-registrations", "history": hist})
 				return
 			}
-			if ttl != op.ttl {
-				r.Violation("sqlite-reg:ttl", fmt.Sprintf("history %v: requested %d s, reply reports %d s (no policy callback installed)", hist, op.ttl, ttl), map[string]any{"layer": "sqlite-registrations", "history": hist})
+			granted := op.ttl
+			if policyCap > 0 {
+				granted = min(op.ttl, policyCap)
 			}
-			model[op.dev] = regModel{op.addr, now.Add(time.Duration(op.ttl) * time.Second), true}
+			if ttl != granted {
+				r.Violation("sqlite-reg:ttl", fmt.Sprintf("history %v: requested %d s, policy cap %d s: reply reports %d s, granted is %d s", hist, op.ttl, policyCap, ttl, granted), map[string]any{"layer": "sqlite-registrations", "history": hist, "policy_cap": policyCap})
+			}
+			model[op.dev] = regModel{op.addr, now.Add(time.Duration(granted) * time.Second), true}
 		}
 		r.States.Add(1)
 		r.Evaluations.Add(1)
@@ -151,7 +162,7 @@ func sqliteRegistrations(depth int) {
 				}
 			}
 		}
-		r.Distinct("sqlite-reg|" + strings.Join(hist, ";"))
+		r.Distinct(fmt.Sprintf("sqlite-reg|%d|%s", policyCap, strings.Join(hist, ";")))
 		if len(seq) == depth {
 			return
 		}
@@ -160,5 +171,5 @@ func sqliteRegistrations(depth int) {
 		}
 	}
 	rec(nil)
-	r.Set("sqlite_registration_histories", n)
+	r.Add("sqlite_registration_histories", int64(n))
 }
